@@ -284,6 +284,8 @@ MUTANTS = [
     ("regular_gate_hoisted_flags_uninitialised", "bempp_cl/core/numba_kernels.py", "        is_adjacent = _np.zeros(n_trial_elements, dtype=_np.bool_)\n\n        for trial_element_index in range(n_trial_elements):\n            trial_element = trial_elements[trial_element_index]\n            if grids_identical and elements_adjacent(test_grid_data.elements, test_element, trial_element):\n                is_adjacent[trial_element_index] = True\n", "        is_adjacent = _np.empty(n_trial_elements, dtype=_np.bool_)\n\n        if grids_identical:\n            for trial_element_index in range(n_trial_elements):\n                trial_element = trial_elements[trial_element_index]\n                is_adjacent[trial_element_index] = elements_adjacent(test_grid_data.elements, test_element, trial_element)\n", 0, ["C16", "C07"]),
     ("duffy_gauss_order_minus_one", "bempp_cl/api/integration/duffy_galerkin.py", "    xreg, wreg = gauss_rule(order)\n", "    xreg, wreg = gauss_rule(max(order - 1, 1))\n", 0, ["C12", "C01"]),
     ("cl_realtype3_float_in_double_block", "bempp_cl/core/sources/include/bempp_base_types.h", "    typedef double3 REALTYPE3;", "    typedef float3 REALTYPE3;", 0, ["C20"]),
+    ("helmholtz_adl_dispatch_abs_wavenumber", "bempp_cl/api/operators/boundary/helmholtz.py", "            _np.imag(wavenumber),\n", "            _np.abs(wavenumber),\n", 2, ["C05", "C07"]),
+    ("geometry_normals_clamped_norm", "bempp_cl/api/grid/grid.py", "        normals = normal_directions / _np.expand_dims(normal_direction_norms, 1)", "        normals = normal_directions / _np.expand_dims(_np.maximum(normal_direction_norms, 1e-14), 1)", 0, ["C11", "C01", "C03"]),
     ("potential_rule_in_closure_global", "bempp_cl/core/numba_assemblers.py", "    def evaluator(x):\n        \"\"\"Actually evaluate the potential.\"\"\"\n", "    def evaluator(x):\n        \"\"\"Actually evaluate the potential.\"\"\"\n        quad_points, quad_weights = rule(parameters.quadrature.regular)\n", 0, ["C18"]),
 ]
 
@@ -296,6 +298,7 @@ EQUIVALENTS = [
     ('eq_triangle_rule_try_after_lower_bound', 'bempp_cl/api/integration/triangle_gauss.py', "    if order < 1 or order > 20:\n        raise ValueError(f\"Symmetric Gauss quadrature order must be between 1 and 20. Provided: {order}\")\n    npoints = points_per_order[order - 1]\n", "    if order < 1:\n        raise ValueError(f\"Symmetric Gauss quadrature order must be between 1 and 20. Provided: {order}\")\n    try:\n        npoints = points_per_order[order - 1]\n    except IndexError:\n        raise ValueError(f\"Symmetric Gauss quadrature order must be between 1 and 20. Provided: {order}\")\n", 0, ['C12']),
     ('eq_regular_gate_hoisted_zeros_kept', 'bempp_cl/core/numba_kernels.py', "        for trial_element_index in range(n_trial_elements):\n            trial_element = trial_elements[trial_element_index]\n            if grids_identical and elements_adjacent(test_grid_data.elements, test_element, trial_element):\n                is_adjacent[trial_element_index] = True\n", "        if grids_identical:\n            for trial_element_index in range(n_trial_elements):\n                trial_element = trial_elements[trial_element_index]\n                if elements_adjacent(test_grid_data.elements, test_element, trial_element):\n                    is_adjacent[trial_element_index] = True\n", 0, ['C01', 'C16', 'C07']),
     ('eq_duffy_gauss_order_via_exact_helper', 'bempp_cl/api/integration/duffy_galerkin.py', "    xreg, wreg = gauss_rule(order)\n", "    xreg, wreg = gauss_rule((2 * order - 1 + 1) // 2)\n", 0, ['C12', 'C01']),
+    ('eq_p1_extension_append_guarded', 'bempp_cl/api/space/scalar_spaces.py', "                for en in non_support_neighbors:\n                    extended_support.append(en)\n", "                for en in non_support_neighbors:\n                    if en not in extended_support:\n                        extended_support.append(en)\n", 0, ['C09', 'C10']),
     ('eq_rwg_count_local', 'bempp_cl/api/space/maxwell_spaces.py', '                if len(supported_neighbors) == 2:\n                    if edge_dofs[edge_index]:', '                n_sup = len(supported_neighbors)\n                if n_sup == 2:\n                    if edge_dofs[edge_index]:', 0, ['C09']),
     ('eq_rwg_sentinel_full', 'bempp_cl/api/space/maxwell_spaces.py', '    edge_dofs = -_np.ones(number_of_edges, dtype=_np.int32)', '    edge_dofs = _np.full(number_of_edges, -1, dtype=_np.int32)', 0, ['C09', 'C16']),
     ('eq_p1_interior_inline', 'bempp_cl/api/space/scalar_spaces.py', '            node_is_interior = len(non_support_neighbors) == 0 and not grid_data.vertex_on_boundary[vertex]\n            if include_boundary_dofs or node_is_interior:', '            if include_boundary_dofs or (len(non_support_neighbors) == 0 and not grid_data.vertex_on_boundary[vertex]):', 0, ['C09']),
